@@ -133,6 +133,14 @@ impl<'input, E> Iterator for Matcher<'input, '_, E> {
                 .max()
                 .unwrap();
 
+            if longest_match == 0 {
+                // A zero-length match consumes no input, so it would be found again on every
+                // later call: report it instead of yielding empty tokens forever.
+                return Some(Err(ParseError::InvalidToken {
+                    location: start_offset,
+                }));
+            }
+
             let result = &text[..longest_match];
             let remaining = &text[longest_match..];
             let end_offset = start_offset + longest_match;
@@ -140,11 +148,6 @@ impl<'input, E> Iterator for Matcher<'input, '_, E> {
             self.consumed = end_offset;
 
             if self.skip_vec[index] {
-                if longest_match == 0 {
-                    return Some(Err(ParseError::InvalidToken {
-                        location: start_offset,
-                    }));
-                }
                 continue;
             }
 
